@@ -49,8 +49,9 @@
                schedule, the refund cap and the EIP-7623 floor are taken as given)
      refunded  the refund that was granted (bookkeeping only; `used` is already net of it)
    With Measured = TRUE the facts of a transaction come from FactsTree (recorded from the real
-   execution of the very same history); with Measured = FALSE they range over UsedSet / L1CostSet so
-   that TLC checks the invariants below for arbitrary facts.
+   execution of the very same history; the variable `known` walks down that tree along the
+   history); with Measured = FALSE they range over UsedSet / L1CostSet so that TLC checks the
+   invariants below for arbitrary facts.
 
    NUMBERS are plain integers (wei, gas).  Fixed-point scalars are written as fractions n/d with
    d | 10^6 (the chain stores n/d * 10^6), which keeps every intermediate product below 2^31:
